@@ -141,18 +141,29 @@ def gen(rng, prop=None):
     cand = days + [d + timedelta(days=1) for d in days] + [d - timedelta(days=1) for d in days] + [date(2018, 1, 1), date(2030, 6, 30), date(2021, 1, 1), date(2020, 12, 31)]
     fd = rng.choice(cand) if rng.random() < 0.4 else None
     td = rng.choice(cand) if rng.random() < 0.4 else None
+    bd = [d for rows in assets.values() for d in P.boundary_dates(rows)]
+    if bd and rng.random() < 0.5:
+        if rng.random() < 0.7:
+            td = rng.choice(bd)
+        else:
+            fd = rng.choice(bd)
     if fd and td and fd > td:
         fd, td = td, fd
     method = rng.choice([None] + facts["methods"])
     lang = rng.choice([None] + facts["langs"])
     sched = None
-    if method is None and len(facts["methods"]) > 1 and rng.random() < 0.25:
-        sched = rng.choice([{"2020": rng.choice(facts["methods"])}, {"1970": rng.choice(facts["methods"]), "2021": rng.choice(facts["methods"])},
-                            {"1970": "fifo", "2020": rng.choice(facts["methods"]), "2022": rng.choice(facts["methods"])}])
+    if len(facts["methods"]) > 1 and rng.random() < 0.35:
+        method = None
+        ms = facts["methods"]
+        sched = rng.choice([{"2020": rng.choice(ms)}, {"1970": rng.choice(ms), "2021": rng.choice(ms)},
+                            {"1970": rng.choice(ms), "2020": rng.choice(ms), "2022": rng.choice(ms)},
+                            {"2018": rng.choice(ms), "2020": rng.choice(ms), "2021": rng.choice(ms), "2022": rng.choice(ms)},
+                            {"1970": rng.choice(ms), "2019": rng.choice(ms), "2020": rng.choice(ms), "2021": rng.choice(ms), "2023": rng.choice(ms)}])
     case = {"entry": entry, "method": method, "lang": lang, "from": fd.isoformat() if fd else None, "to": td.isoformat() if td else None, "neg": rng.random() < 0.8,
             "only": rng.choice(list(assets)) if rng.random() < 0.15 else None, "sched": sched, "assets": assets, "cfee": cfee, "fault": None, "prefix": rng.choice(["", "x_"])}
-    if prop == "C18" and rng.random() < 0.3:
-        case["fault"] = rng.choice(FAULTS)
+    if prop == "C18" and rng.random() < 0.45:
+        # failing runs are audited too; the faults that end on the "unexpected error" path or involve the bytes of an input file are favoured
+        case["fault"] = rng.choice(FAULTS + ["config-with-bom", "ini-duplicate-option", "input-not-ods"] * 3)
     if prop == "C18" and rng.random() < 0.12:
         case["variant"] = "log-is-a-file"
     if prop == "C12" and rng.random() < 0.7:
@@ -160,7 +171,7 @@ def gen(rng, prop=None):
         if case["fault"] == "asset-without-sheet":
             case["only"] = None
     if prop == "C17":
-        case["variant"] = rng.choice(["hashseed", "stale-output", "single-asset", "single-asset", "repeat"])
+        case["variant"] = rng.choice(["hashseed", "hashseed", "stale-output", "single-asset", "single-asset", "repeat", "permuted", "permuted"])
         if case["variant"] == "single-asset" and len(facts["methods"]) > 1 and rng.random() < 0.7:
             case["method"], case["sched"], case["only"] = rng.choice(["hifo", "lofo", "lifo"]), None, None
     return case
@@ -169,7 +180,8 @@ def gen(rng, prop=None):
 # option / config faults for C12 (each makes the invocation invalid)
 FAULTS = ["from-after-to", "unknown-asset-option", "unknown-language", "plugin-flag", "method-twice", "unknown-method-in-section", "method-not-allowed",
           "ini-missing-section", "ini-duplicate-column", "ini-bad-header-name", "ini-non-integer-column", "ini-empty-assets", "ini-unknown-section",
-          "asset-without-sheet", "input-not-ods", "config-missing", "bad-date"]
+          "asset-without-sheet", "input-not-ods", "config-missing", "bad-date", "ini-duplicate-option", "config-with-bom",
+          "ini-negative-column", "ini-duplicate-asset", "ini-section-twice", "ini-early-year"]
 KNOWN_FAULTS = {"jp-from-and-to": "F8", "unknown-generator": "F14"}     # genuine defects recorded as known findings; generated only by their witnesses
 
 
@@ -184,6 +196,11 @@ def write_inputs(case, d):
                     sh[i, j].set_value(v)
         doc.sheets += sh
     doc.save()
+    open(os.path.join(d, "in.ini"), "wb").write(ini_bytes(case))
+
+
+def ini_bytes(case):
+    """the configuration file of a case, byte for byte"""
     assets = list(case["assets"])
     f = case.get("fault")
     if f == "asset-without-sheet":
@@ -200,6 +217,8 @@ def write_inputs(case, d):
                 name = "crypto_inn"
             if f == "ini-non-integer-column" and t == "IN" and name == "crypto_in":
                 col = "x"
+            if f == "ini-negative-column" and t == "OUT" and name == "notes":
+                col = "-1"
             ini += f"{name} = {col}\n"
         ini += "\n"
     sched = case["sched"]
@@ -211,9 +230,38 @@ def write_inputs(case, d):
         ini += "[accounting_methods]\n" + "".join(f"{y} = {m}\n" for y, m in sched.items()) + "\n"
     if f == "ini-unknown-section":
         ini += "[foo]\na = 1\n"
+    if f == "ini-section-twice":
+        ini += "[out_header again]\nnotes = 12\n"          # the name of a section is its first word
+    if f == "ini-early-year":
+        ini += ("" if sched else "[accounting_methods]\n") + "1969 = fifo\n"
+    if f == "ini-duplicate-asset":
+        ini = ini.replace("assets = ", "assets = " + assets[0] + ", ", 1)
     if f == "unknown-generator":
         ini = ini.replace("holders = " + ", ".join(HOS), "holders = " + ", ".join(HOS) + "\ngenerators = nope")
-    open(os.path.join(d, "in.ini"), "w").write(ini)
+    if f == "ini-duplicate-option":
+        # configparser itself refuses a repeated option (DuplicateOptionError, not an RP2Error): the run ends on the "unexpected error" path
+        ini = ini.replace("[in_header]\n", "[in_header]\nnotes = 40\nnotes = 40\n") if "notes" not in LAY["IN"] else ini.replace("[in_header]\n", f"[in_header]\nnotes = {LAY['IN']['notes']}\n")
+    data = ini.encode()
+    if f == "config-with-bom":
+        data = b"\xef\xbb\xbf" + data        # a UTF-8 byte order mark: configparser finds no section header on the first line
+    return data
+
+
+def ini_lines(case):
+    """the configuration file as configparser reads it -> protocol lines for the Lean model of Configuration.__init__ (Ini.ofIni);
+    ININONE when configparser itself refuses the text (duplicate option, missing section header)"""
+    import configparser
+    cp = configparser.ConfigParser()
+    try:
+        cp.read_string(ini_bytes(case).decode("utf-8"))
+    except configparser.Error:
+        return ["ININONE"]
+    L = ["INIEMPTY"]
+    for sec in cp.sections():
+        L.append("INISEC x" + PA.hexs(sec))
+        for k, v in cp[sec].items():
+            L.append("INIKV x" + PA.hexs(k) + " x" + PA.hexs(v))
+    return L
 
 
 def argv_of(case, d):
@@ -430,11 +478,7 @@ def run_impl(case, hashseed=None, stale=False):
 
 # ---------------- model
 def encode(case):
-    L = ["RESET"] + [f"A {PA.hexs(a)}" for a in (list(case["assets"]) + (["B9"] if case.get("fault") == "asset-without-sheet" else []))]
-    L += [f"X {PA.hexs(x)}" for x in EXS] + [f"H {PA.hexs(x)}" for x in HOS]
-    for t, n in (("IN", "in"), ("OUT", "out"), ("INTRA", "intra")):
-        for f, c in LAY[t].items():
-            L.append(f"C {n} {f} {c}")
+    L = ["RESET"] + ini_lines(case)
     for a, rows in case["assets"].items():
         L.append(f"S {PA.hexs(a)}")
         g = grid(a, rows, case["cfee"].get(a, {}))
@@ -448,13 +492,6 @@ def encode(case):
     if f == "jp-from-and-to":
         fd, td = fd or date(2020, 1, 1), td or date(2021, 12, 31)
     L.append(f"CFG 0 {1 if case['neg'] else 0} {P.o(P.ordn(fd) if fd else None)} {P.o(P.ordn(td) if td else None)} 1 1")
-    sched = case["sched"]
-    if f == "method-twice":
-        sched = {"1970": "fifo"}
-    if f == "unknown-method-in-section":
-        sched = {"1970": "zzz"}
-    for y, m in (sched or {}).items():
-        L.append(f"CSCHED {y} {m}")
     m = case["method"]
     if f == "method-twice":
         m = "fifo"
@@ -467,7 +504,8 @@ def encode(case):
 
 
 MODELLED_FAULTS = {None, "jp-from-and-to", "from-after-to", "unknown-asset-option", "unknown-language", "plugin-flag", "method-twice", "unknown-method-in-section", "method-not-allowed",
-                   "asset-without-sheet"}
+                   "asset-without-sheet", "ini-missing-section", "ini-duplicate-column", "ini-bad-header-name", "ini-non-integer-column", "ini-empty-assets", "ini-unknown-section",
+                   "ini-duplicate-option", "config-with-bom", "ini-negative-column", "ini-duplicate-asset", "ini-section-twice", "ini-early-year", "unknown-generator"}
 
 
 def run_model(cases):
@@ -495,7 +533,7 @@ def run_model(cases):
 
 def diff(case, i, m):
     if case.get("fault") not in MODELLED_FAULTS:
-        return []                       # configuration-file faults are not modelled in Lean: oracle only
+        return []                       # faults outside the model (input file is not an .ods, configuration file missing, malformed date option): oracle only
     if m["exit"] < 0:
         return ["model"]
     d = []
@@ -777,11 +815,41 @@ def oracle_c17(case, res, guard=True):
         what = "a run into an output directory holding a stale report and an unrelated file"
     elif v == "hashseed":
         a = canon(run_subprocess(case, 1))
-        b = canon(run_subprocess(case, 2))
-        if a != b:
-            return "reports differ between PYTHONHASHSEED=1 and PYTHONHASHSEED=2: " + first_diff(a, b)
+        for hs in (2, 3, 4):
+            b = canon(run_subprocess(case, hs))
+            if a != b:
+                return f"reports differ between PYTHONHASHSEED=1 and PYTHONHASHSEED={hs}: " + first_diff(a, b)
         other = a
         what = "a run in a fresh interpreter with PYTHONHASHSEED=1"
+    elif v == "permuted":
+        # rows reordered within each table (ids change, everything else must not) — only when timestamps are distinct within an asset
+        if any(len({r[2] for r in rows}) < len(rows) for rows in case["assets"].values()):
+            return None
+        rng = random.Random(len(json.dumps(case, default=str)))
+        perm = {}
+        for a, rows in case["assets"].items():
+            new = [list(r) for r in rows]
+            rng.shuffle(new)
+            rid = 3
+            old2new = {}
+            for tbl in ("IN", "OUT", "INTRA"):
+                for x in new:
+                    if x[0] == tbl:
+                        old2new[x[1]] = rid
+                        x[1] = rid
+                        rid += 1
+                rid += 3
+            perm[a] = (new, old2new)
+        c2 = dict(case, assets={a: perm[a][0] for a in perm}, cfee={a: {str(perm[a][1][int(k)]): v_ for k, v_ in case["cfee"].get(a, {}).items()} for a in perm})
+        r2 = run_impl(c2)
+        if r2["exit"] != 0:
+            return f"the same transactions with rows reordered within the tables are rejected (exit {r2['exit']})"
+        strip = lambda r: [("id" if (k in (3, 4) and r[0] in ("IOIN", "IOOUT", "IOX", "TD")) else x) for k, x in enumerate(r)]
+        mine = sorted(json.dumps(strip(r), default=str) for r in res["rows"])
+        theirs = sorted(json.dumps(strip(r), default=str) for r in r2["rows"])
+        if mine != theirs:
+            return "reports differ when rows are reordered within the tables (timestamps distinct): " + str([x for x in mine if x not in theirs][:1] + [x for x in theirs if x not in mine][:1])
+        return None
     else:
         if case["only"] or len(case["assets"]) < 2:
             return None
@@ -815,7 +883,45 @@ def first_diff(a, b):
     return f"rows {x} vs {y}"
 
 
-ORACLES = {"C12": oracle_c12, "C13": oracle_c13, "C16": oracle_c16, "C17": oracle_c17, "C18": oracle_c18, "C19": oracle_c19}
+def oracle_c02(case, res, guard=True):
+    """end to end (through the parser, incl. crypto-fee acquisitions): a history in which every disposal is covered is not rejected"""
+    if case.get("fault") is not None or not case_valid(case):
+        return None
+    if case["entry"] == "jp" and case["from"] and case["to"]:
+        return None
+    if res["exit"] != 0:
+        return f"every disposal is covered by lots acquired at or before it, yet the run is rejected (exit {res['exit']}, options {argv_of(case, '.')[1:-2]})"
+    return None
+
+
+def oracle_c15(case, res, guard=True):
+    """open positions, end to end: unrealized cost = cost of everything acquired (from the sheet cells) minus realized cost"""
+    if case.get("fault") is not None or res["exit"] != 0 or case["from"] or "_a2c" not in res or not res.get("content_checked", True):
+        return None
+    if guard and case["to"] and not all(P.local_dates_monotone({"rows": effective_rows(rows)}) for rows in case["assets"].values()):
+        return None
+    oa = [r for r in res["rows"] if r[0] == "OA"]
+    td = date.fromisoformat(case["to"]) if case["to"] else date.max
+    for a, cd in res["_a2c"].items():
+        acquired = F(0)
+        for r in effective_rows(case["assets"][a]):
+            if r[0] != "IN" or ldate(r[2], r[3]) > td:
+                continue
+            cf = case["cfee"].get(a, {}).get(str(r[1]))
+            nf = F(r[9], U) if r[9] is not None else F(r[7], U) * F(r[6], U)
+            fee = (F(eff(cf), U) * F(r[6], U)) if cf else (F(r[8], U) if r[8] is not None else 0)
+            acquired += F(r[10], U) if r[10] is not None else nf + fee
+        realized = sum((F(g.fiat_cost_basis) for g in cd.gain_loss_set), F(0))
+        unreal = acquired - realized
+        got = [r for r in oa if r[2] == a]
+        if got and unreal > F(1, 10**6):
+            s_ = sum(g[6] for g in got)
+            if abs(s_ - float(unreal)) > 1e-9 * max(1.0, float(unreal)):
+                return f"{a}: unrealized cost {s_} vs cost of everything acquired (from the sheet) minus realized cost {float(unreal)}"
+    return None
+
+
+ORACLES = {"C02": oracle_c02, "C15": oracle_c15, "C12": oracle_c12, "C13": oracle_c13, "C16": oracle_c16, "C17": oracle_c17, "C18": oracle_c18, "C19": oracle_c19}
 
 
 def shrink_candidates(case):
